@@ -101,7 +101,7 @@ impl Board {
 /// `running: Arc<AtomicBool>` is modelled by a ghost "halted" bit.  A stop may arrive during any call, so every
 /// &mut self function may turn halted on; nothing in the search ever turns it off (start() is only called by
 /// Search::search before iter_deep).
-pub struct RunFlag { pub flag_down: Ghost<bool>, pub lim: Ghost<bool>, pub bestmoves: Ghost<int>, pub reported: Ghost<Seq<int>> }
+pub struct RunFlag { pub flag_down: Ghost<bool>, pub lim: Ghost<bool>, pub bestmoves: Ghost<int>, pub reported: Ghost<Seq<int>>, pub quiet: Ghost<bool> }
 
 pub struct Instant { pub t: Ghost<int> }
 impl Clone for Instant { #[verifier::external_body] fn clone(&self) -> (r: Self) ensures r == *self { unimplemented!() } }
@@ -111,7 +111,7 @@ impl Instant {
     pub fn now() -> (r: Instant) { unimplemented!() }
     /// milliseconds since `self`; SUBST of `start.elapsed().as_millis()`
     #[verifier::external_body]
-    pub fn elapsed_ms(&self) -> (r: u128) { unimplemented!() }
+    pub fn elapsed_ms(&self) -> (r: u128) ensures r < u128::MAX { unimplemented!() }   // range: fewer than 2^128-1 ms elapse
 }
 
 pub struct SimpleEvaluator;
